@@ -1,6 +1,7 @@
 import OsuProofs.EstJacobian
 import OsuProofs.EstRotation
 import OsuProofs.EstPSD
+import OsuProofs.NewtonRotation
 import OsuProofs.MemRotation
 /-
 C06 — estimators reproduce the input moments; solvers agree; the Jacobian is the derivative of
@@ -220,11 +221,37 @@ theorem mem_model_bridge {N : ℕ} (a1 b1 a2 b2 : ℝ) (θ : Fin N → ℝ) :
     mem a1 b1 a2 b2 (List.ofFn fun j => (Real.cos (θ j), Real.sin (θ j), Real.cos (2 * θ j), Real.sin (2 * θ j)))
       = List.ofFn (memF fun j => memRawAt a1 b1 a2 b2 (θ j)) := mem_bridge a1 b1 a2 b2 θ
 
+/-- the constraint function is equivariant on the uniform grid: `F(Rλ; RM) = R F(λ; M)` -/
+theorem constraints_rotate {N : ℕ} [NeZero N] (θ0 Δ : ℝ) (k : Fin N) (lam M : List ℝ) (hM : M.length = 4) :
+    constraints (rotLam (phiR k) lam) (rotLam (phiR k) M) (gridDelta N Δ) (gridT (N := N) θ0)
+      = rotLam (phiR k) (constraints lam M (gridDelta N Δ) (gridT (N := N) θ0)) :=
+  constraints_rot θ0 Δ k lam M hM
+
+/-- **MEM2 / Newton rotates with its input**: the whole damped Newton iteration with its line search
+(any tolerance, iteration cap, line-search depth; converged or not) maps moments rotated by `k` bins
+to the distribution rotated by `k` bins, on every uniform grid, provided the Newton step
+(Jacobian + linear solve) is equivariant — which an exact solve is, since `J(Rλ) = R J(λ) Rᵀ`;
+that last fact is the hypothesis `StepEquivariant`, not proved here -/
+theorem newton_rotates {N : ℕ} [NeZero N] (solve : List (List ℝ) → List ℝ → List ℝ) (atol : ℝ) (maxIter lsDepth : ℕ)
+    (θ0 Δ : ℝ) (k : Fin N) (hS : StepEquivariant solve θ0 Δ k) (a1 b1 a2 b2 : ℝ) :
+    ∃ D : Fin N → ℝ,
+      mem2Newton solve atol maxIter lsDepth [a1, b1, a2, b2] (gridDelta N Δ) (gridT (N := N) θ0) = List.ofFn D ∧
+      mem2Newton solve atol maxIter lsDepth (rotLam (phiR k) [a1, b1, a2, b2]) (gridDelta N Δ) (gridT (N := N) θ0)
+        = List.ofFn (Osu.Rot.rotE k D) :=
+  mem2Newton_rot solve atol maxIter lsDepth θ0 Δ k hS a1 b1 a2 b2
+
 /-! non-vacuity: the hypotheses of the theorems above are met by concrete inputs -/
 example : (∀ d ∈ ([1, 1, 1] : List ℝ), 0 < d) ∧ ([[1, 0, 1, 0], [0, 1, -1, 0], [-1, 0, 1, 0]] : List (List ℝ)) ≠ [] ∧
     ([0.1, 0.2, 0, 0] : List ℝ).length = 4 := by
   refine ⟨?_, by simp, rfl⟩
   intro d hd; simp at hd; rcases hd with rfl | rfl | rfl <;> norm_num
 example : rotMoments (0 : ℝ) 0.5 0.1 0.2 0 = ((0.5 : ℝ), (0.1 : ℝ), (0.2 : ℝ), (0 : ℝ)) := by simp [rotMoments]
+
+-- the hypothesis `StepEquivariant` is satisfiable (a steepest-descent step: the update is the residual itself)
+example {N : ℕ} [NeZero N] (θ0 Δ : ℝ) (k : Fin N) :
+    StepEquivariant (fun _ g => [g.getD 0 0, g.getD 1 0, g.getD 2 0, g.getD 3 0]) θ0 Δ k := by
+  refine ⟨?_, fun _ _ => rfl⟩
+  intro lam g _ _
+  simp [rotLam]
 
 end Osu.Props.C06
